@@ -641,6 +641,9 @@ def run_driver(ctx):
                                         "elements": len(r["before"]),
                                         "first_notes": [[list(p0), list(p1)] for (_, _, p0), (_, _, p1) in zip(r["before"], r["result"]) if p0][:4]}})
     ctx.log('driver: %d runs done, %d cases to Coq' % (len(jobs), len(terms)))
+    if not terms:
+        ctx.obligation("correspondence: Coq model transpose_elems = transpose()", False, "every driver case already failed the direct oracle")
+        return
     try:
         failing = ctx.coq_failing("driver", "From PV Require Import Model.C16.", "", terms, "driver_ok", shard=150)
         detail = failing[:5]
